@@ -229,12 +229,10 @@ fn build_expr(
             value: Prim::boolean(value),
             ty: tast::Ty::TBool,
         },
-        hir::Expr::EInt { value } => tast::Expr::EPrim {
-            value: Prim::Int32 {
-                value: parse_signed(&value).unwrap_or(0),
-            },
-            ty: tast::Ty::TInt32,
-        },
+        hir::Expr::EInt { value } => {
+            let (value, ty) = unsuffixed_integer_prim(&value, results.expr_ty(expr_id));
+            tast::Expr::EPrim { value, ty }
+        }
         hir::Expr::EInt8 { value } => tast::Expr::EPrim {
             value: Prim::Int8 {
                 value: parse_signed(&value).unwrap_or(0),
@@ -676,12 +674,10 @@ fn build_pat(hir_table: &hir::HirTable, results: &TypeckResults, pat_id: hir::Pa
             value: Prim::boolean(value),
             ty: tast::Ty::TBool,
         },
-        hir::Pat::PInt { value } => tast::Pat::PPrim {
-            value: Prim::Int32 {
-                value: parse_signed(&value).unwrap_or(0),
-            },
-            ty: results.pat_ty(pat_id).cloned().unwrap_or(tast::Ty::TInt32),
-        },
+        hir::Pat::PInt { value } => {
+            let (value, ty) = unsuffixed_integer_prim(&value, results.pat_ty(pat_id));
+            tast::Pat::PPrim { value, ty }
+        }
         hir::Pat::PInt8 { value } => tast::Pat::PPrim {
             value: Prim::Int8 {
                 value: parse_signed(&value).unwrap_or(0),
@@ -786,6 +782,28 @@ fn build_pat(hir_table: &hir::HirTable, results: &TypeckResults, pat_id: hir::Pa
         hir::Pat::PWild => tast::Pat::PWild {
             ty: results.pat_ty(pat_id).cloned().unwrap_or(tast::Ty::TUnit),
         },
+    }
+}
+
+fn unsuffixed_integer_prim(literal: &str, resolved: Option<&tast::Ty>) -> (Prim, tast::Ty) {
+    let prim = match resolved {
+        Some(tast::Ty::TInt8) => parse_signed(literal).map(|value| Prim::Int8 { value }),
+        Some(tast::Ty::TInt16) => parse_signed(literal).map(|value| Prim::Int16 { value }),
+        Some(tast::Ty::TInt64) => parse_signed(literal).map(|value| Prim::Int64 { value }),
+        Some(tast::Ty::TUint8) => parse_unsigned(literal).map(|value| Prim::UInt8 { value }),
+        Some(tast::Ty::TUint16) => parse_unsigned(literal).map(|value| Prim::UInt16 { value }),
+        Some(tast::Ty::TUint32) => parse_unsigned(literal).map(|value| Prim::UInt32 { value }),
+        Some(tast::Ty::TUint64) => parse_unsigned(literal).map(|value| Prim::UInt64 { value }),
+        _ => None,
+    };
+    match (prim, resolved) {
+        (Some(prim), Some(ty)) => (prim, ty.clone()),
+        _ => (
+            Prim::Int32 {
+                value: parse_signed(literal).unwrap_or(0),
+            },
+            tast::Ty::TInt32,
+        ),
     }
 }
 
